@@ -8,6 +8,22 @@ from .. import iban_rules as R
 
 
 def run(ctx, report):
+    # national validation: every algorithm registered for any country (and every German method) on structure-conforming BBANs;
+    # runs in forked workers while this process builds the validator models
+    from ..algo_eval import struct_positions
+    from ..par import replay, run_recorded_async
+    from .c06 import _bban_level
+    prog = ctx.program
+    bban_cls = prog.get("schwifty.bban.BBAN")
+    todo, seen = [], set()
+    for reg_ in sorted(ctx.facts.registrations(), key=lambda x: x.key):
+        cc = reg_.prefix
+        if cc in seen or cc not in ctx.registry.countries or struct_positions(ctx.registry, cc) is None:
+            continue
+        seen.add(cc)
+        todo.append(cc)
+    ctx.facts.algorithm_table()
+    pending = run_recorded_async(["R05-national"], lambda cc, rules: _bban_level(ctx, rules["R05-national"], cc, struct_positions(ctx.registry, cc), bban_cls, None), todo)
     m = IbanModel(ctx, with_validate=True)
     b = BicModel(ctx)
     report.explanation = (
@@ -26,22 +42,9 @@ def run(ctx, report):
     R.rule_funnel(b, report, "R05-funnel-bic", "BIC", [("init", "validate", "is_valid"), ("init_swift", "validate_swift")])
     R.rule_class_iban(m, report, "R05-class-iban")
     _class_bic(b, report)
-    # national validation: every algorithm registered for any country (and every German method) on structure-conforming BBANs
-    from ..algo_eval import struct_positions
-    from .c06 import _bban_level
     r_nat = report.rule("R05-national", floor=20, what="BBAN-level national validation raises nothing but library exceptions for every registered country")
-    prog = ctx.program
-    bban_cls = prog.get("schwifty.bban.BBAN")
-    seen = set()
-    for reg_ in sorted(ctx.facts.registrations(), key=lambda x: x.key):
-        cc = reg_.prefix
-        if cc in seen or cc not in ctx.registry.countries:
-            continue
-        st = struct_positions(ctx.registry, cc)
-        if st is None:
-            continue
-        seen.add(cc)
-        _bban_level(ctx, r_nat, cc, st, bban_cls, None)
+    for recs, _ in pending.get():
+        replay({"R05-national": r_nat}, recs)
     report.not_decided += ["accuracy of the message texts; which of several simultaneous defects is reported (any present defect satisfies the statement)",
                            "the national check is an opaque verdict inside the symbolic validator model; its own exceptions are decided by R05-national on abstract structure-conforming BBANs"]
 
